@@ -48,26 +48,24 @@ Definition lift {A} (o : out A) : M A :=
 
 (* field updates *)
 Definition with_heap (s : vm) (h : heap) : vm :=
-  mk_vm h (st s) (g_bind s) (g_slots s) (stack s) (sp s) (bp s) (ep s) (ip s) (acc s) (out_log s) (last_trace s).
+  mk_vm h (st s) (g_bind s) (g_slots s) (stack s) (sp s) (bp s) (ep s) (ip s) (acc s) (out_log s).
 Definition with_store (s : vm) (x : store) : vm :=
-  mk_vm (hp s) x (g_bind s) (g_slots s) (stack s) (sp s) (bp s) (ep s) (ip s) (acc s) (out_log s) (last_trace s).
+  mk_vm (hp s) x (g_bind s) (g_slots s) (stack s) (sp s) (bp s) (ep s) (ip s) (acc s) (out_log s).
 Definition with_stack (s : vm) (l : list vcell) (p : N) : vm :=
-  mk_vm (hp s) (st s) (g_bind s) (g_slots s) l p (bp s) (ep s) (ip s) (acc s) (out_log s) (last_trace s).
+  mk_vm (hp s) (st s) (g_bind s) (g_slots s) l p (bp s) (ep s) (ip s) (acc s) (out_log s).
 Definition with_sp (s : vm) (p : N) : vm := with_stack s (stack s) p.
 Definition with_acc (s : vm) (v : vcell) : vm :=
-  mk_vm (hp s) (st s) (g_bind s) (g_slots s) (stack s) (sp s) (bp s) (ep s) (ip s) v (out_log s) (last_trace s).
+  mk_vm (hp s) (st s) (g_bind s) (g_slots s) (stack s) (sp s) (bp s) (ep s) (ip s) v (out_log s).
 Definition with_ip (s : vm) (i : N * N) : vm :=
-  mk_vm (hp s) (st s) (g_bind s) (g_slots s) (stack s) (sp s) (bp s) (ep s) i (acc s) (out_log s) (last_trace s).
+  mk_vm (hp s) (st s) (g_bind s) (g_slots s) (stack s) (sp s) (bp s) (ep s) i (acc s) (out_log s).
 Definition with_bp (s : vm) (b : N) : vm :=
-  mk_vm (hp s) (st s) (g_bind s) (g_slots s) (stack s) (sp s) b (ep s) (ip s) (acc s) (out_log s) (last_trace s).
+  mk_vm (hp s) (st s) (g_bind s) (g_slots s) (stack s) (sp s) b (ep s) (ip s) (acc s) (out_log s).
 Definition with_ep (s : vm) (e : N) : vm :=
-  mk_vm (hp s) (st s) (g_bind s) (g_slots s) (stack s) (sp s) (bp s) e (ip s) (acc s) (out_log s) (last_trace s).
+  mk_vm (hp s) (st s) (g_bind s) (g_slots s) (stack s) (sp s) (bp s) e (ip s) (acc s) (out_log s).
 Definition with_globals (s : vm) (b : list (N * N)) (sl : list vcell) : vm :=
-  mk_vm (hp s) (st s) b sl (stack s) (sp s) (bp s) (ep s) (ip s) (acc s) (out_log s) (last_trace s).
+  mk_vm (hp s) (st s) b sl (stack s) (sp s) (bp s) (ep s) (ip s) (acc s) (out_log s).
 Definition with_log (s : vm) (l : list outev) : vm :=
-  mk_vm (hp s) (st s) (g_bind s) (g_slots s) (stack s) (sp s) (bp s) (ep s) (ip s) (acc s) l (last_trace s).
-Definition with_trace (s : vm) (t : option (list (option text * option cell))) : vm :=
-  mk_vm (hp s) (st s) (g_bind s) (g_slots s) (stack s) (sp s) (bp s) (ep s) (ip s) (acc s) (out_log s) t.
+  mk_vm (hp s) (st s) (g_bind s) (g_slots s) (stack s) (sp s) (bp s) (ep s) (ip s) (acc s) l.
 
 (* ------------------------------------------------------------------ lists *)
 Fixpoint list_get {A} (l : list A) (i : N) : option A := nth_error l (N.to_nat i).
@@ -179,4 +177,4 @@ Definition as_cell (bname : N -> text) (fuel : nat) (v : vcell) : M cell := fun 
 
 (* the initial machine of Vm::new before load_builtins/load_prelude (vm/mod.rs:55-70) *)
 Definition vm_empty (chunk_size : N) : vm :=
-  mk_vm (heap_new chunk_size) store_empty [] [] stack_new 0 0 USIZE_MAX (USIZE_MAX, 0) VUndef [] None.
+  mk_vm (heap_new chunk_size) store_empty [] [] stack_new 0 0 USIZE_MAX (USIZE_MAX, 0) VUndef [].
